@@ -133,6 +133,22 @@ def judge_once(forms, dg, R, case):
         R.exception(e, case)
         return False
     R.count("monitor:get_critical_path")
+    # "producer-to-consumer latency": every edge out of an instruction weighs that instruction's latency without its separately
+    # modelled load stage (plus the model's forwarding latency on a store->load edge), or the model's index write-back latency;
+    # the edge from a load stage to its instruction weighs the load part
+    model = getattr(dg, "model", None)
+    fwd = float((model.get("store_to_load_forward_latency", 0) if model is not None else 0) or 0)
+    pidx = float(model.get("p_index_latency", 1) if model is not None else 1)
+    for (u, v), w in edges.items():
+        if int(u) != u:
+            adm = {lat[int(u)] - wo[int(u)]}
+        else:
+            adm = {wo[u], wo[u] + fwd, pidx}
+        R.count("edge_weights_checked")
+        if not any(abs(w - a) <= 1e-6 for a in adm):
+            R.violation("edge-weight/not-the-producer-latency", "edge %s->%s weighs %s; latency of the producer %s (without load stage %s), forwarding %s, index write-back %s"
+                        % (u, v, w, lat[int(u)], wo[int(u)], fwd, pidx), case)
+            break
     total = sum(float(x.latency_cp) for x in cp)
     chain = [x.line_number for x in cp]
     cpb, cpa = RG.critical_path_bounds(nodes, edges, lat, wo)
